@@ -343,7 +343,7 @@ func c04R1(c *Ctx, r *Report) {
 }
 
 func c04R2(c *Ctx, r *Report) {
-	r.rule("C04.R2.gate", 2, "PackBuffer compresses only when Msg.Compress && isCompressible()")
+	r.rule("C04.R2.gate", 1, "PackBuffer compresses only when Msg.Compress && isCompressible()")
 	fn := c.ssaFunc("Msg.PackBuffer")
 	if fn == nil {
 		r.cerr("C04.R2.gate", "Msg.PackBuffer", "function not found")
@@ -363,17 +363,13 @@ func c04R2(c *Ctx, r *Report) {
 		args := ci.Common().Args
 		flag := args[len(args)-1]
 		construct := fmt.Sprintf("Msg.PackBuffer->packBufferWithCompressionMap#%d", i+1)
-		b, isConst := constBool(flag)
-		if !isConst {
-			r.fail("C04.R2.gate", construct, c.pos(ci.Pos()), "compress argument is not a constant")
-			continue
-		}
-		if !b {
+		if b, isConst := constBool(flag); isConst && !b {
 			r.ok("C04.R2.gate", construct, c.pos(ci.Pos()), "compress=false")
 			continue
 		}
-		miss := guardsMissing(fn, ci.Block(), gs)
-		r.check(len(miss) == 0, "C04.R2.gate", construct, c.pos(ci.Pos()), "guarded by Compress && isCompressible()", "compress=true call is not guarded by %s", strings.Join(miss, ", "))
+		// a constant true at a guarded call, or a flag that is itself the conjunction (kept in a local)
+		miss := flagImplies(fn, ci.Block(), flag, gs)
+		r.check(len(miss) == 0, "C04.R2.gate", construct, c.pos(ci.Pos()), "compress is set only under Compress && isCompressible()", "the compress argument can be true without %s", strings.Join(miss, ", "))
 	}
 }
 
